@@ -1,4 +1,5 @@
 import ScrapliModel.Lemmas.RegexSound
+import ScrapliModel.Lemmas.RegexLine
 import ScrapliModel.Generated.Patterns
 /-!
 # RX — the regex engine against a declarative match relation
@@ -109,6 +110,37 @@ theorem v1Dot1Delim_line (s : Bytes) (a e : Nat) (c : Caps)
       (∀ b ∈ line, b ≠ LF) ∧ (pre = [] ∨ ∃ pre', pre = pre' ++ [LF]) ∧
       (post = [] ∨ ∃ post', post = LF :: post') ∧ line ∈ splitLF s :=
   match_within_line (.cat (.lit 35) (.lit 35)) s a e c rfl h
+
+/-- **`isMatch` of a line pattern is line-local**: for `(?m)^body$` where `body` cannot consume a
+line feed and contains no text anchor (`\A`, `\z`), the pattern matches a text iff it matches one
+of the text's lines taken alone. This is the `LineLocal` hypothesis of DESIGN §3 as a theorem about
+the engine. -/
+theorem isMatch_line_local (body : Re) (hn : body.noLF = true) (hna : body.noTextAnchor = true)
+    (s : Bytes) :
+    isMatch (.cat .bol (.cat body .eol)) s = true ↔
+      ∃ l ∈ splitLF s, isMatch (.cat .bol (.cat body .eol)) l = true :=
+  isMatch_line_iff hn hna s
+
+/-- The NETCONF 1.1 end-of-message regex `(?m)^##$`, as extracted from the source, matches a text
+iff one of its lines is exactly `##` (the regex framing finding F2 is about). -/
+theorem v1Dot1Delim_iff (s : Bytes) :
+    isMatch Gen.Rx.Netconf.v1Dot1Delim s = true ↔ [HASH, HASH] ∈ splitLF s := by
+  have hshape : Gen.Rx.Netconf.v1Dot1Delim = .cat .bol (.cat (.cat (.lit 35) (.lit 35)) .eol) := rfl
+  rw [hshape, isMatch_line_iff rfl rfl]
+  constructor
+  · rintro ⟨l, hmem, h⟩
+    obtain ⟨_, _, _, hl, _, _⟩ := splitLF_mem hmem
+    obtain ⟨p, q, _, ha, hqa, hM⟩ := isMatch_line_whole rfl hl h
+    cases hM with
+    | cat h1 h2 =>
+      obtain ⟨b1, hb1, e1⟩ := h1.lit_ascii (by decide)
+      obtain ⟨b2, hb2, e2⟩ := h2.lit_ascii (by decide)
+      have h1' : b1 = HASH := UInt8.toNat_inj.mp (by rw [hb1]; rfl)
+      have h2' : b2 = HASH := UInt8.toNat_inj.mp (by rw [hb2]; rfl)
+      have : l = [HASH, HASH] := by rw [← ha, e1, e2, hqa, h1', h2']
+      rw [← this]; exact hmem
+  · intro hmem
+    exact ⟨_, hmem, by decide +kernel⟩
 
 /-! ## `findAll` and `replaceAll` -/
 
